@@ -68,7 +68,13 @@ def enum_units(tier, seed):
                                                {"k": "if", "c": ["id", "p_ax"], "t": [{"k": "call", "n": "m_a", "args": [["bin", "-", ["id", "p_ax"], L(1)], ["id", "p_ay"]]}], "e": None}]},
                                            {"k": "call", "n": "m_a", "args": [L(2), ["id", "lb_2"]]}, {"k": "label", "n": "lb_2"}]},
     ]
-    return {"units": [{"cases": cases}], "exhaustive": False}
+    # conditionally-terminated recursion expands completely, however deep (up to what the interpreter's own limit allows)
+    rec = {"k": "macro", "n": "m_r", "ps": ["p_rx"], "b": [
+        {"k": "data", "d": "db", "es": [["bin", "&", ["id", "p_rx"], ["lit", 0xFF, "x"]]]},
+        {"k": "if", "c": ["id", "p_rx"], "t": [{"k": "call", "n": "m_r", "args": [["bin", "-", ["id", "p_rx"], L(1)]]}], "e": None}]}
+    for depth in (20, 31, 32, 33, 63, 64, 65, 100, 150):
+        cases.append({"rom": "low", "files": {}, "ir": [org, rec, {"k": "call", "n": "m_r", "args": [L(depth)]}, {"k": "label", "n": "lb_tail"}, {"k": "data", "d": "dl", "es": [["id", "lb_tail"]]}]})
+    return {"units": [{"cases": [c]} for c in cases], "exhaustive": False}
 
 
 def unit_cases(unit):
